@@ -5,7 +5,7 @@
    equal length.  Constructing a pipeline produces no event at all in this semantics; that the implementation
    agrees is part of the tie (the application log must be empty after building). *)
 From Coq Require Import List Arith Bool.
-Require Import LD.Base LD.Trace LD.TraceTie LD.TraceProofs LD.TraceKey LD.TraceKeyProofs.
+Require Import LD.Base LD.Trace LD.TraceTie LD.TraceProofs LD.TraceKey LD.TraceKeyProofs LD.TraceInter LD.TraceInterProofs.
 Import ListNotations.
 Local Open Scope nat_scope.
 
@@ -90,3 +90,18 @@ Print Assumptions C08_getkey_once_per_stage.
 Print Assumptions C08_getkey_only_own_stages.
 Print Assumptions C08_getkey_value_is_example.
 Print Assumptions C08_getkey_is_getindex.
+
+(* intersperse of any number of lazy pipelines (TraceInter.v): values are the merged reference; the j-th result is - event for
+   event, hence function application for function application - the next not yet consumed element of the ONE input the order
+   table names at position j (plus the fetch of the intersperse stage itself): nothing is evaluated ahead in any input *)
+Theorem C08_intersperse_values : forall id ds, Forall lwf ds -> values (inter_s id ds) = inter_ref ds.
+Proof. exact inter_values_ref. Qed.
+Theorem C08_intersperse_demand : forall id order ins j di,
+  (forall d l', nth_error ins d = Some l' -> count_occ Nat.eq_dec order d <= length l') ->
+  (forall d, In d order -> d < length ins) ->
+  nth_error order j = Some di ->
+  exists l s, nth_error ins di = Some l /\ nth_error l (count_occ Nat.eq_dec (firstn j order) di) = Some s /\
+              nth_error (inter_segs id order ins) j = Some (tag_fetch id s).
+Proof. exact inter_segment_origin. Qed.
+Print Assumptions C08_intersperse_values.
+Print Assumptions C08_intersperse_demand.
